@@ -1,17 +1,806 @@
-//! C04 — correspondence driver (stub: not built yet).
+//! C04 — reverse-mode differentiation: random SSA programs over `Record<Fp>` / `Record<Rat>`,
+//! every operator in every ownership / operand-kind form.
+//!
+//! Shared with c05.rs / c15.rs: the program generator (`ProgGen`), the element trait `El`, the
+//! form-dispatch macros, the named user functions.
+//!
+//! Line protocol: see lean/Driver/Prog.lean and lean/Driver/C04.lean.
 
+use crate::exact::{Fp, Rat, P};
 use crate::util::*;
+use easy_ml::differentiation::record_operations::SwappedOperations;
+use easy_ml::differentiation::{Primitive, Record, WengertList};
+use easy_ml::numeric::extra::{Cos, Exp, Ln, Pi, Pow, Sin, Sqrt};
+use easy_ml::numeric::{FromUsize, Numeric, NumericRef, ZeroOne};
+use std::ops::{Add, Div, Mul, Neg, Sub};
 
-pub fn gen(_g: &mut Gen) {}
+// ---------------------------------------------------------------------------------------------
+// element types
+// ---------------------------------------------------------------------------------------------
 
-pub struct Runner;
+pub trait El: Clone + std::fmt::Display + PartialEq + 'static {
+    fn parse(s: &str) -> Self;
+}
+impl El for Fp {
+    fn parse(s: &str) -> Fp {
+        Fp::new(s.parse::<u64>().expect("fp"))
+    }
+}
+impl El for Rat {
+    fn parse(s: &str) -> Rat {
+        match s.split_once('/') {
+            Some((n, d)) => Rat::new(n.parse().expect("rat n"), d.parse().expect("rat d")),
+            None => Rat::new(s.parse().expect("rat"), 1),
+        }
+    }
+}
+
+pub fn show_list<T: std::fmt::Display>(v: &[T]) -> String {
+    if v.is_empty() {
+        "-".to_string()
+    } else {
+        v.iter().map(|x| x.to_string()).collect::<Vec<_>>().join(",")
+    }
+}
+
+/// Result names of a case -> position of the record.
+pub type Names = std::collections::HashMap<String, usize>;
+
+/// Do all operand names of an instruction / derivs line exist?  (Dangling names only occur in
+/// shrunk replays; such a line is answered `bad-ref` and ignored, by the model too.)
+pub fn refs_ok(names: &Names, toks: &[&str], from: usize) -> bool {
+    toks.iter().skip(from).all(|t| {
+        t.contains('=')
+            || t.split(',').all(|piece| {
+                !piece.chars().next().map(|ch| ch.is_ascii_alphabetic()).unwrap_or(false)
+                    || names.contains_key(piece)
+            })
+    })
+}
+
+// ---------------------------------------------------------------------------------------------
+// operator forms: every by-value / by-reference combination of a binary operator
+// ---------------------------------------------------------------------------------------------
+
+pub const FORMS4: [&str; 4] = ["val_val", "val_ref", "ref_val", "ref_ref"];
+pub const FORMS2: [&str; 2] = ["val", "ref"];
+
+/// `$a`, `$b` are references; `$f` is the trait method (`Add::add`, `Pow::pow`, ...).
+#[macro_export]
+macro_rules! op4 {
+    ($via:expr, $a:expr, $b:expr, $f:path) => {
+        match $via {
+            "val_val" => $f($a.clone(), $b.clone()),
+            "val_ref" => $f($a.clone(), $b),
+            "ref_val" => $f($a, $b.clone()),
+            "ref_ref" => $f($a, $b),
+            other => panic!("harness: unknown form {}", other),
+        }
+    };
+}
+
+#[macro_export]
+macro_rules! op2 {
+    ($via:expr, $a:expr, $f:path) => {
+        match $via {
+            "val" => $f($a.clone()),
+            "ref" => $f($a),
+            other => panic!("harness: unknown form {}", other),
+        }
+    };
+}
+
+// ---------------------------------------------------------------------------------------------
+// named user functions (the same table as lean/Driver/Prog.lean)
+// ---------------------------------------------------------------------------------------------
+
+pub fn two<T: Numeric>() -> T {
+    T::one() + T::one()
+}
+pub fn three<T: Numeric>() -> T {
+    T::one() + T::one() + T::one()
+}
+
+pub type F1<T> = Box<dyn Fn(T) -> T>;
+pub type F2<T> = Box<dyn Fn(T, T) -> T>;
+
+pub fn unary_fn<T: Numeric + 'static>(name: &str) -> (F1<T>, F1<T>) {
+    match name {
+        "cube" => (
+            Box::new(|x: T| x.clone() * x.clone() * x),
+            Box::new(|x: T| three::<T>() * (x.clone() * x)),
+        ),
+        "aff" => (Box::new(|x: T| two::<T>() * x + T::one()), Box::new(|_x: T| two::<T>())),
+        // deliberately not the derivative: the code must use what it is given
+        "odd" => (Box::new(|x: T| x.clone() * x), Box::new(|x: T| x)),
+        other => panic!("harness: unknown unary fn {}", other),
+    }
+}
+
+pub fn binary_fn<T: Numeric + 'static>(name: &str) -> (F2<T>, F2<T>, F2<T>) {
+    match name {
+        "axy" => (
+            Box::new(|x: T, y: T| x.clone() * y + x),
+            Box::new(|_x: T, y: T| y + T::one()),
+            Box::new(|x: T, _y: T| x),
+        ),
+        "wsum" => (
+            Box::new(|x: T, y: T| two::<T>() * x + three::<T>() * y),
+            Box::new(|_x: T, _y: T| two::<T>()),
+            Box::new(|_x: T, _y: T| three::<T>()),
+        ),
+        "psq" => (
+            Box::new(|x: T, y: T| x.clone() * x * y),
+            Box::new(|x: T, y: T| two::<T>() * x * y),
+            Box::new(|x: T, _y: T| x.clone() * x),
+        ),
+        other => panic!("harness: unknown binary fn {}", other),
+    }
+}
+
+pub const UNARY_FNS: [&str; 3] = ["cube", "aff", "odd"];
+pub const BINARY_FNS: [&str; 3] = ["axy", "wsum", "psq"];
+
+// ---------------------------------------------------------------------------------------------
+// generator of SSA programs (shared by C04, C05, C15)
+// ---------------------------------------------------------------------------------------------
+
+pub const PI_FP: u64 = 1311325525161987955;
+
+/// Picks one of `forms` for operator `op`: half of the time the form hit least often so far
+/// (so every form of every operator is forced to occur), otherwise a random one.
+pub fn pick_form(g: &mut Gen, prefix: &str, op: &str, forms: &[&'static str]) -> &'static str {
+    let count = |g: &Gen, f: &str| *g.stats.get(&format!("{}.{}.{}", prefix, op, f)).unwrap_or(&0);
+    let chosen = if g.rng.chance(1, 2) {
+        let mut best = forms[0];
+        for f in forms {
+            if count(g, f) < count(g, best) {
+                best = f;
+            }
+        }
+        best
+    } else {
+        *g.rng.pick(forms)
+    };
+    g.count(&format!("{}.{}.{}", prefix, op, chosen));
+    chosen
+}
+
+#[derive(Clone, Copy, PartialEq)]
+pub enum Kind {
+    Fp,
+    Rat,
+}
+
+/// What the generator knows about the instructions emitted so far in a case.
+pub struct ProgGen {
+    pub kind: Kind,
+    pub prefix: &'static str,
+    /// number of uses of each result (fan-out is capped at 6)
+    pub uses: Vec<usize>,
+    pub is_var: Vec<bool>,
+    /// does a variable contribute
+    pub dep: Vec<bool>,
+    /// Rat only: bound on the bit size of numerator/denominator of the value and of any tangent
+    pub bits: Vec<u32>,
+    pub tbits: Vec<u32>,
+    /// Rat only: (parents, weight bit bound) per instruction, for the reverse-sweep size bound
+    pub edges: Vec<(Vec<usize>, u32)>,
+    /// tape of each result (C15), None for constants
+    pub tape: Vec<Option<usize>>,
+    /// C15: the record's tape was cleared and the record not reset since
+    pub stale: Vec<bool>,
+    /// C15: may `operand` hand out stale records (misuse)
+    pub allow_stale: bool,
+}
+
+impl ProgGen {
+    pub fn new(kind: Kind, prefix: &'static str) -> ProgGen {
+        ProgGen {
+            kind,
+            prefix,
+            uses: vec![],
+            is_var: vec![],
+            dep: vec![],
+            bits: vec![],
+            tbits: vec![],
+            edges: vec![],
+            tape: vec![],
+            stale: vec![],
+            allow_stale: false,
+        }
+    }
+    pub fn len(&self) -> usize {
+        self.uses.len()
+    }
+
+    pub fn value(&self, g: &mut Gen) -> String {
+        match self.kind {
+            Kind::Fp => {
+                if g.rng.chance(1, 8) {
+                    g.count(&format!("{}.value.small", self.prefix));
+                    format!("{}", *g.rng.pick(&[0u64, 1, 2, 3, P - 1, P - 2]))
+                } else {
+                    g.count(&format!("{}.value.random", self.prefix));
+                    format!("{}", g.rng.next() % P)
+                }
+            }
+            Kind::Rat => {
+                g.count(&format!("{}.value.rat", self.prefix));
+                let n = g.rng.range(0, 12) as i64 - 6;
+                if g.rng.chance(1, 4) {
+                    let d = g.rng.range(2, 5) as i64;
+                    format!("{}", Rat::new(n as i128, d as i128))
+                } else {
+                    format!("{}", n)
+                }
+            }
+        }
+    }
+
+    /// an operand among the earlier results with fan-out < 6, preferring recent ones; `want_tape`
+    /// restricts to results usable with that tape (constants or the same tape), C15 only
+    pub fn operand(&mut self, g: &mut Gen, want_tape: Option<usize>) -> Option<usize> {
+        let ok = |s: &ProgGen, k: usize| {
+            s.uses[k] < 6
+                && (s.allow_stale || !s.stale[k])
+                && (s.kind == Kind::Fp || s.bits[k] <= 24)
+                && match (want_tape, s.tape[k]) {
+                    (Some(t), Some(u)) => t == u,
+                    _ => true,
+                }
+        };
+        let n = self.len();
+        let cands: Vec<usize> = (0..n).filter(|&k| ok(self, k)).collect();
+        if cands.is_empty() {
+            return None;
+        }
+        let k = if g.rng.chance(1, 2) {
+            // recent
+            cands[cands.len() - 1 - g.rng.below(cands.len().min(4))]
+        } else {
+            *g.rng.pick(&cands)
+        };
+        self.uses[k] += 1;
+        Some(k)
+    }
+
+    fn push(&mut self, is_var: bool, dep: bool, bits: u32, tbits: u32, parents: Vec<usize>, wbits: u32, tape: Option<usize>) {
+        self.uses.push(0);
+        self.is_var.push(is_var);
+        self.dep.push(dep);
+        self.bits.push(bits);
+        self.tbits.push(tbits);
+        self.edges.push((parents, wbits));
+        self.tape.push(tape);
+        self.stale.push(false);
+    }
+
+    pub fn leaf_var(&mut self, g: &mut Gen, tape: usize) -> String {
+        let k = self.len();
+        let v = self.value(g);
+        let via = pick_form(g, self.prefix, "var", &["record", "list"]);
+        self.push(true, true, 4, 1, vec![], 0, Some(tape));
+        if self.prefix == "c15" {
+            format!("var r{} {} t={} via={}", k, v, tape, via)
+        } else {
+            format!("var r{} {} via={}", k, v, via)
+        }
+    }
+
+    pub fn leaf_const(&mut self, g: &mut Gen) -> String {
+        let k = self.len();
+        let forms: &[&'static str] = match self.kind {
+            Kind::Fp => &["constant", "constant", "zero", "one", "from_usize", "pi"],
+            Kind::Rat => &["constant", "constant", "zero", "one", "from_usize"],
+        };
+        let via = pick_form(g, self.prefix, "const", forms);
+        let v = match via {
+            "zero" => "0".to_string(),
+            "one" => "1".to_string(),
+            "from_usize" => format!("{}", g.rng.below(7)),
+            "pi" => format!("{}", PI_FP),
+            _ => self.value(g),
+        };
+        self.push(false, false, 4, 1, vec![], 0, None);
+        format!("const r{} {} via={}", k, v, via)
+    }
+
+    fn res_tape(&self, ops: &[usize]) -> Option<usize> {
+        ops.iter().filter_map(|&k| self.tape[k]).next()
+    }
+
+    /// One non-leaf instruction over existing results; None if no operand is available.
+    /// `tape`: restrict operands to one tape (C15).
+    pub fn op_instr(&mut self, g: &mut Gen, tape: Option<usize>) -> Option<String> {
+        let k = self.len();
+        let real = self.kind == Kind::Fp;
+        // weights of the instruction kinds
+        let mut kinds: Vec<&'static str> = vec![
+            "add", "sub", "mul", "div", "add", "sub", "mul", "div", "addn", "subn", "muln", "divn",
+            "subsw", "divsw", "neg", "sum", "unary", "binary",
+        ];
+        if real {
+            kinds.extend_from_slice(&["sin", "cos", "exp", "ln", "sqrt", "pow", "pow", "pown", "npow"]);
+        }
+        let kind = *g.rng.pick(&kinds);
+        g.count(&format!("{}.instr.{}", self.prefix, kind));
+        let p = self.prefix;
+        match kind {
+            "add" | "sub" | "mul" | "div" | "pow" | "binary" => {
+                let a = self.operand(g, tape)?;
+                let want = tape.or(self.tape[a]);
+                // half of the time look for a second operand of the other kind (variable-dependent
+                // vs constant), so that the one-constant-operand arms are exercised
+                let mut b = self.operand(g, want)?;
+                if g.rng.chance(1, 2) {
+                    for _ in 0..4 {
+                        if self.dep[b] != self.dep[a] {
+                            break;
+                        }
+                        self.uses[b] -= 1;
+                        b = self.operand(g, want)?;
+                    }
+                }
+                let nb = self.bits[a] + self.bits[b] + 1;
+                let (bits, wbits) = if kind == "binary" { (3 * nb + 4, 3 * nb + 4) } else { (nb, 2 * nb + 2) };
+                let tb = self.tbits[a] + self.tbits[b] + 3 * nb + 4;
+                let dep = self.dep[a] || self.dep[b];
+                let t = self.res_tape(&[a, b]);
+                self.push(false, dep, bits, tb, vec![a, b], wbits, t);
+                let pair = match (self.dep[a], self.dep[b]) {
+                    (true, true) => "var_var",
+                    (true, false) => "var_const",
+                    (false, true) => "const_var",
+                    (false, false) => "const_const",
+                };
+                g.count(&format!("{}.pairing.{}.{}", p, kind, pair));
+                if a == b {
+                    g.count(&format!("{}.same_operand_twice", p));
+                }
+                if kind == "binary" {
+                    let f = *g.rng.pick(&BINARY_FNS);
+                    g.count(&format!("{}.binary.fn.{}", p, f));
+                    Some(format!("binary r{} r{} r{} fn={}", k, a, b, f))
+                } else {
+                    let via = pick_form(g, p, kind, &FORMS4);
+                    Some(format!("{} r{} r{} r{} via={}", kind, k, a, b, via))
+                }
+            }
+            "addn" | "subn" | "muln" | "divn" | "subsw" | "divsw" | "pown" | "npow" => {
+                let a = self.operand(g, tape)?;
+                let c = self.value(g);
+                let nb = self.bits[a] + 5;
+                let dep = self.dep[a];
+                let t = self.res_tape(&[a]);
+                self.push(false, dep, nb, self.tbits[a] + 3 * nb + 4, vec![a], 2 * nb + 2, t);
+                g.count(&format!("{}.pairing.{}.{}", p, kind, if dep { "var" } else { "const" }));
+                let via = pick_form(g, p, kind, &FORMS4);
+                if kind == "npow" {
+                    Some(format!("npow r{} {} r{} via={}", k, c, a, via))
+                } else {
+                    Some(format!("{} r{} r{} {} via={}", kind, k, a, c, via))
+                }
+            }
+            "neg" | "sin" | "cos" | "exp" | "ln" | "sqrt" | "unary" => {
+                let a = self.operand(g, tape)?;
+                let nb = if kind == "unary" { 3 * self.bits[a] + 4 } else { self.bits[a] };
+                let dep = self.dep[a];
+                let t = self.res_tape(&[a]);
+                self.push(false, dep, nb, self.tbits[a] + 3 * nb + 4, vec![a], nb + 4, t);
+                g.count(&format!("{}.pairing.{}.{}", p, kind, if dep { "var" } else { "const" }));
+                if kind == "unary" {
+                    let f = *g.rng.pick(&UNARY_FNS);
+                    g.count(&format!("{}.unary.fn.{}", p, f));
+                    Some(format!("unary r{} r{} fn={}", k, a, f))
+                } else {
+                    let via = pick_form(g, p, kind, &FORMS2);
+                    Some(format!("{} r{} r{} via={}", kind, k, a, via))
+                }
+            }
+            _ => {
+                // sum of 0..5 terms
+                let n = g.rng.below(6);
+                g.count(&format!("{}.sum.terms.{}", p, n));
+                let mut ops = vec![];
+                let mut want = tape;
+                for _ in 0..n {
+                    if let Some(a) = self.operand(g, want) {
+                        want = want.or(self.tape[a]);
+                        ops.push(a);
+                    }
+                }
+                let nb: u32 = ops.iter().map(|&a| self.bits[a] + 1).sum::<u32>() + 1;
+                let tb: u32 = ops.iter().map(|&a| self.tbits[a] + 1).sum::<u32>() + 1;
+                let dep = ops.iter().any(|&a| self.dep[a]);
+                let t = self.res_tape(&ops);
+                let nv = ops.iter().filter(|&&a| self.dep[a]).count();
+                let pattern = if ops.is_empty() {
+                    "empty"
+                } else if nv == ops.len() {
+                    "all_variables"
+                } else if nv == 0 {
+                    "all_constants"
+                } else if self.dep[ops[0]] {
+                    "mixed_variable_first"
+                } else {
+                    "mixed_constant_first"
+                };
+                g.count(&format!("{}.sum.pattern.{}", p, pattern));
+                self.push(false, dep, nb, tb, ops.clone(), 1, t);
+                let names: Vec<String> = ops.iter().map(|a| format!("r{}", a)).collect();
+                Some(format!("sum r{} {}", k, if names.is_empty() { "-".to_string() } else { names.join(",") }))
+            }
+        }
+    }
+
+    /// Rat only: bound on the bit size of any adjoint when sweeping back from result `y`
+    pub fn sweep_bits(&self, y: usize) -> u32 {
+        let mut b = vec![0u32; self.len()];
+        b[y] = 1;
+        let mut worst = 1;
+        for i in (0..=y).rev() {
+            if b[i] == 0 {
+                continue;
+            }
+            let (ps, w) = &self.edges[i];
+            for &p in ps {
+                b[p] = b[p].saturating_add(b[i]).saturating_add(*w).saturating_add(1);
+                worst = worst.max(b[p]);
+            }
+        }
+        worst
+    }
+
+    /// may result `k` be differentiated / used without leaving i128 (always true for Fp)
+    pub fn safe(&self, k: usize) -> bool {
+        self.kind == Kind::Fp || (self.bits[k] <= 40 && self.tbits[k] <= 100 && self.sweep_bits(k) <= 100)
+    }
+
+    /// Removes the last instruction (Rat: when it grew too large).
+    pub fn pop(&mut self) {
+        let (ps, _) = self.edges.pop().unwrap();
+        for p in ps {
+            self.uses[p] -= 1;
+        }
+        self.uses.pop();
+        self.is_var.pop();
+        self.dep.pop();
+        self.bits.pop();
+        self.tbits.pop();
+        self.tape.pop();
+        self.stale.pop();
+    }
+}
+
+/// One random program: leaves and operations interleaved, `derivs` lines sprinkled in.
+/// `emit_derivs(g, st, k)` produces the derivative line(s) for result `k`.
+pub fn gen_program(g: &mut Gen, kind: Kind, prefix: &'static str, header: &str, max_size: usize) {
+    let mut st = ProgGen::new(kind, prefix);
+    g.op(header.to_string());
+    let size = 1 + g.rng.below(max_size);
+    g.count(&format!("{}.program.size.{:02}", prefix, (size + 4) / 5 * 5));
+    // of 5: share of variables among leaves (one program in 16 has constants only)
+    let var_share = if g.rng.chance(1, 16) { 0 } else { *g.rng.pick(&[1usize, 2, 3, 3, 4, 4, 5]) };
+    while st.len() < size {
+        let n = st.len();
+        let leaf = n == 0 || g.rng.chance(1, 4);
+        let line = if leaf {
+            if g.rng.below(5) < var_share {
+                Some(st.leaf_var(g, 0))
+            } else {
+                Some(st.leaf_const(g))
+            }
+        } else {
+            st.op_instr(g, None)
+        };
+        let line = match line {
+            Some(l) => l,
+            None => st.leaf_var(g, 0),
+        };
+        if !st.safe(st.len() - 1) {
+            // a rational grew too large: drop the instruction, end the program
+            st.pop();
+            g.count(&format!("{}.program.cut_for_size", prefix));
+            break;
+        }
+        g.op(line);
+        let k = st.len() - 1;
+        if g.rng.chance(1, 8) {
+            emit_derivs(g, &st, k);
+        }
+    }
+    if st.len() > 0 {
+        let k = st.len() - 1;
+        emit_derivs(g, &st, k);
+        // and of a random intermediate result
+        let j = g.rng.below(st.len());
+        emit_derivs(g, &st, j);
+    }
+    let nvars = st.is_var.iter().filter(|&&v| v).count();
+    g.count(&format!("{}.program.vars.{}", prefix, nvars.min(9)));
+    let max_fan = st.uses.iter().cloned().max().unwrap_or(0);
+    g.count(&format!("{}.program.max_fanout.{}", prefix, max_fan));
+}
+
+pub fn emit_derivs(g: &mut Gen, st: &ProgGen, k: usize) {
+    let p = st.prefix;
+    let name = format!("r{}", k);
+    if g.rng.chance(1, 4) {
+        g.count(&format!("{}.tryderivs.{}", p, if st.dep[k] { "variable" } else { "constant" }));
+        g.op(format!("tryderivs {}", name));
+    } else {
+        g.count(&format!("{}.derivs.{}", p, if st.dep[k] { "variable" } else { "constant" }));
+        let via = pick_form(g, p, "derivs", &["at", "index", "vec"]);
+        g.op(format!("derivs {} via={}", name, via));
+    }
+}
+
+pub fn gen(g: &mut Gen) {
+    let (n_fp, n_rat) = if g.thorough { (30000, 6000) } else { (1500, 400) };
+    // hand-written cases first: one of each one-constant-operand shape
+    for line in [
+        "@ tape fp", "var r0 5 via=record", "const r1 7 via=constant", "sub r2 r1 r0 via=ref_ref",
+        "div r3 r1 r0 via=ref_ref", "mul r4 r1 r0 via=ref_ref", "add r5 r1 r0 via=ref_ref",
+        "pow r6 r1 r0 via=ref_ref", "pow r7 r0 r1 via=ref_ref", "binary r8 r1 r0 fn=psq",
+        "binary r9 r0 r1 fn=psq", "sum r10 r1,r0,r1,r0", "derivs r2 via=vec", "derivs r3 via=vec",
+        "derivs r4 via=vec", "derivs r5 via=vec", "derivs r6 via=vec", "derivs r7 via=vec",
+        "derivs r8 via=vec", "derivs r9 via=vec", "derivs r10 via=vec", "derivs r1 via=vec",
+        "tryderivs r1", "tryderivs r0",
+    ] {
+        g.op(line.to_string());
+    }
+    for _ in 0..n_fp {
+        gen_program(g, Kind::Fp, "c04.fp", "@ tape fp", 40);
+    }
+    for _ in 0..n_rat {
+        gen_program(g, Kind::Rat, "c04.rat", "@ tape rat", 10);
+    }
+}
+
+// ---------------------------------------------------------------------------------------------
+// execution against the implementation
+// ---------------------------------------------------------------------------------------------
+
+/// A `WengertList` that outlives the records pointing into it: allocated on the heap, freed by
+/// hand when the case is dropped (after the records).
+pub struct TapeBox<T: Primitive + 'static> {
+    ptr: *mut WengertList<T>,
+}
+impl<T: Primitive + 'static> TapeBox<T> {
+    pub fn new() -> TapeBox<T> {
+        TapeBox { ptr: Box::into_raw(Box::new(WengertList::new())) }
+    }
+    pub fn get(&self) -> &'static WengertList<T> {
+        unsafe { &*self.ptr }
+    }
+}
+impl<T: Primitive + 'static> Drop for TapeBox<T> {
+    fn drop(&mut self) {
+        unsafe { drop(Box::from_raw(self.ptr)) }
+    }
+}
+
+pub type Rc<T> = Record<'static, T>;
+
+/// `Record::unary` / `Record::binary` return a record whose lifetime parameter is tied to the
+/// borrow of `&self` (lifetime elision in their signatures); the tape it points to is the
+/// heap-allocated one of the case, so the lifetime is restored here.
+pub fn extend<'x, T: Primitive>(r: Record<'x, T>) -> Rc<T> {
+    unsafe { std::mem::transmute::<Record<'x, T>, Record<'static, T>>(r) }
+}
+
+pub struct CaseG<T: Numeric + Primitive + 'static> {
+    // field order matters: records are dropped before the tapes
+    pub recs: Vec<Rc<T>>,
+    pub names: Names,
+    pub vars: Vec<usize>,
+    pub tapes: Vec<TapeBox<T>>,
+}
+
+impl<T: Numeric + Primitive + 'static> CaseG<T> {
+    pub fn new(ntapes: usize) -> CaseG<T> {
+        CaseG { recs: vec![], names: Names::new(), vars: vec![], tapes: (0..ntapes).map(|_| TapeBox::new()).collect() }
+    }
+}
+
+pub fn show_rec<T: Numeric + Primitive + std::fmt::Display>(r: &Rc<T>) -> String {
+    format!("v={} const={} ## idx={}", r.number, if r.history().is_none() { 1 } else { 0 }, r.index)
+}
+
+/// Instruction kinds available for every Numeric element type.  Returns None when `toks` is not
+/// such an instruction.
+pub fn arith_instr<T>(c: &CaseG<T>, toks: &[&str], tape: usize) -> Option<Result<Rc<T>, PanicKind>>
+where
+    T: Numeric + Primitive + El,
+    for<'a> &'a T: NumericRef<T>,
+{
+    let via = opt_arg("via", toks).unwrap_or("");
+    let rec = |s: &str| &c.recs[c.names[s]];
+    let r = match toks[0] {
+        "const" => {
+            let v = T::parse(toks[2]);
+            catch(|| match via {
+                "zero" => <Rc<T> as ZeroOne>::zero(),
+                "one" => <Rc<T> as ZeroOne>::one(),
+                "from_usize" => <Rc<T> as FromUsize>::from_usize(toks[2].parse().unwrap()).unwrap(),
+                _ => Record::constant(v),
+            })
+        }
+        "var" => {
+            let v = T::parse(toks[2]);
+            let list = c.tapes[tape].get();
+            catch(|| match via {
+                "list" => list.variable(v),
+                _ => Record::variable(v, list),
+            })
+        }
+        "add" => { let (a, b) = (rec(toks[2]), rec(toks[3])); catch(|| op4!(via, a, b, Add::add)) }
+        "sub" => { let (a, b) = (rec(toks[2]), rec(toks[3])); catch(|| op4!(via, a, b, Sub::sub)) }
+        "mul" => { let (a, b) = (rec(toks[2]), rec(toks[3])); catch(|| op4!(via, a, b, Mul::mul)) }
+        "div" => { let (a, b) = (rec(toks[2]), rec(toks[3])); catch(|| op4!(via, a, b, Div::div)) }
+        "addn" => { let (a, b) = (rec(toks[2]), &T::parse(toks[3])); catch(|| op4!(via, a, b, Add::add)) }
+        "subn" => { let (a, b) = (rec(toks[2]), &T::parse(toks[3])); catch(|| op4!(via, a, b, Sub::sub)) }
+        "muln" => { let (a, b) = (rec(toks[2]), &T::parse(toks[3])); catch(|| op4!(via, a, b, Mul::mul)) }
+        "divn" => { let (a, b) = (rec(toks[2]), &T::parse(toks[3])); catch(|| op4!(via, a, b, Div::div)) }
+        "subsw" => {
+            let (a, b) = (rec(toks[2]), &T::parse(toks[3]));
+            catch(|| op4!(via, a, b, SwappedOperations::sub_swapped))
+        }
+        "divsw" => {
+            let (a, b) = (rec(toks[2]), &T::parse(toks[3]));
+            catch(|| op4!(via, a, b, SwappedOperations::div_swapped))
+        }
+        "neg" => { let a = rec(toks[2]); catch(|| op2!(via, a, Neg::neg)) }
+        "sum" => {
+            let items: Vec<Rc<T>> = split_comma(toks[2]).iter().map(|s| rec(s).clone()).collect();
+            catch(|| items.into_iter().sum::<Rc<T>>())
+        }
+        "unary" => {
+            let a = rec(toks[2]);
+            let (f, df) = unary_fn::<T>(opt_arg("fn", toks).unwrap());
+            catch(|| extend(a.unary(f, df)))
+        }
+        "binary" => {
+            let (a, b) = (rec(toks[2]), rec(toks[3]));
+            let (f, dfx, dfy) = binary_fn::<T>(opt_arg("fn", toks).unwrap());
+            catch(|| extend(a.binary(b, f, dfx, dfy)))
+        }
+        _ => return None,
+    };
+    Some(r)
+}
+
+/// The real-function instructions (element type Fp only).
+pub fn real_instr(c: &CaseG<Fp>, toks: &[&str]) -> Option<Result<Rc<Fp>, PanicKind>> {
+    let via = opt_arg("via", toks).unwrap_or("");
+    let rec = |s: &str| &c.recs[c.names[s]];
+    let r = match toks[0] {
+        "const" if via == "pi" => catch(|| <Rc<Fp> as Pi>::pi()),
+        "sin" => { let a = rec(toks[2]); catch(|| op2!(via, a, Sin::sin)) }
+        "cos" => { let a = rec(toks[2]); catch(|| op2!(via, a, Cos::cos)) }
+        "exp" => { let a = rec(toks[2]); catch(|| op2!(via, a, Exp::exp)) }
+        "ln" => { let a = rec(toks[2]); catch(|| op2!(via, a, Ln::ln)) }
+        "sqrt" => { let a = rec(toks[2]); catch(|| op2!(via, a, Sqrt::sqrt)) }
+        "pow" => { let (a, b) = (rec(toks[2]), rec(toks[3])); catch(|| op4!(via, a, b, Pow::pow)) }
+        "pown" => { let (a, b) = (rec(toks[2]), &Fp::parse(toks[3])); catch(|| op4!(via, a, b, Pow::pow)) }
+        "npow" => { let (a, b) = (&Fp::parse(toks[2]), rec(toks[3])); catch(|| op4!(via, a, b, Pow::pow)) }
+        _ => return None,
+    };
+    Some(r)
+}
+
+pub fn derivs_line<T>(c: &CaseG<T>, toks: &[&str]) -> String
+where
+    T: Numeric + Primitive + El,
+    for<'a> &'a T: NumericRef<T>,
+{
+    let via = opt_arg("via", toks).unwrap_or("vec");
+    let r = &c.recs[c.names[toks[1]]];
+    let try_ = toks[0] == "tryderivs";
+    let d = if try_ {
+        match catch(|| r.try_derivatives()) {
+            Ok(None) => return "none".to_string(),
+            Ok(Some(d)) => d,
+            Err(k) => return panic_str(k),
+        }
+    } else {
+        match catch(|| r.derivatives()) {
+            Ok(d) => d,
+            Err(k) => return panic_str(k),
+        }
+    };
+    let per_input = catch(|| {
+        c.vars
+            .iter()
+            .map(|&i| {
+                let x = &c.recs[i];
+                match via {
+                    "at" => d.at(x),
+                    "index" => d[x].clone(),
+                    _ => Vec::from(d.clone())[x.index].clone(),
+                }
+            })
+            .collect::<Vec<T>>()
+    });
+    let per_input = match per_input {
+        Ok(v) => v,
+        Err(k) => return panic_str(k),
+    };
+    let full: Vec<T> = Vec::from(d);
+    format!("{}d={} ## full={}", if try_ { "some " } else { "" }, show_list(&per_input), show_list(&full))
+}
+
+enum Case {
+    None,
+    Fp(CaseG<Fp>),
+    Rat(CaseG<Rat>),
+}
+
+pub struct Runner {
+    case: Case,
+}
+
+fn finish<T: Numeric + Primitive + El>(c: &mut CaseG<T>, toks: &[&str], r: Result<Rc<T>, PanicKind>) -> String {
+    match r {
+        Ok(r) => {
+            let s = show_rec(&r);
+            if toks[0] == "var" {
+                c.vars.push(c.recs.len());
+            }
+            c.names.insert(toks[1].to_string(), c.recs.len());
+            c.recs.push(r);
+            s
+        }
+        Err(k) => panic_str(k),
+    }
+}
 
 impl Runner {
     pub fn new() -> Runner {
-        Runner
+        Runner { case: Case::None }
     }
 
-    pub fn step(&mut self, _toks: &[&str]) -> String {
-        "unimplemented".into()
+    pub fn step(&mut self, toks: &[&str]) -> String {
+        if toks.is_empty() {
+            return "bad-op".into();
+        }
+        if toks[0] == "@" {
+            // drop the old case (records, then tapes) before the new one is made
+            self.case = Case::None;
+            self.case = match toks.get(2) {
+                Some(&"rat") => Case::Rat(CaseG::new(1)),
+                _ => Case::Fp(CaseG::new(1)),
+            };
+            return "ok".into();
+        }
+        match &mut self.case {
+            Case::None => "bad-op".into(),
+            Case::Fp(c) => {
+                if !refs_ok(&c.names, toks, if toks[0].ends_with("derivs") { 1 } else { 2 }) {
+                    return "bad-ref".into();
+                }
+                if toks[0] == "derivs" || toks[0] == "tryderivs" {
+                    return derivs_line::<Fp>(c, toks);
+                }
+                let r = real_instr(c, toks).or_else(|| arith_instr::<Fp>(c, toks, 0));
+                match r {
+                    Some(r) => finish(c, toks, r),
+                    None => "bad-op".into(),
+                }
+            }
+            Case::Rat(c) => {
+                if !refs_ok(&c.names, toks, if toks[0].ends_with("derivs") { 1 } else { 2 }) {
+                    return "bad-ref".into();
+                }
+                if toks[0] == "derivs" || toks[0] == "tryderivs" {
+                    return derivs_line::<Rat>(c, toks);
+                }
+                match arith_instr::<Rat>(c, toks, 0) {
+                    Some(r) => finish(c, toks, r),
+                    None => "bad-op".into(),
+                }
+            }
+        }
     }
 }
